@@ -55,7 +55,7 @@ fn replay_once<'p>(p: &'p Program, hist: &[HEv], cfg: &MachineCfg, partial: bool
                     StepErr::Reject(r) => r,
                 })?;
             }
-            HK::Unwind => {}
+            HK::Unwind | HK::Note => {}
             HK::Ret => {
                 if m.pc(t) != ev.pc as usize {
                     return Err(format!("T{} returned from op {} but the reference is at {}", t, ev.pc, m.pc(t)));
@@ -451,5 +451,105 @@ pub fn o4_step(prev: &[Branch], cur: &[Branch]) -> Result<(), String> {
         }
         _ => return Err(format!("branch {} changed kind", b)),
     }
+    Ok(())
+}
+
+// ------------------------------------------------------------------------------------------
+// thread_local! / lazy_static! life-cycle validation over the harness notes of one iteration
+
+pub fn check_tls_lazy(p: &Program, hist: &[HEv]) -> Result<(), String> {
+    use crate::interp::*;
+    let nt = p.n_threads();
+    // positions
+    let mut last_ret = vec![None; nt];
+    for (i, e) in hist.iter().enumerate() {
+        if e.kind == HK::Ret {
+            last_ret[e.tid as usize] = Some(i);
+        }
+    }
+    let mut tls_init = vec![[0usize; 2]; nt];
+    let mut tls_drop = vec![[0usize; 2]; nt];
+    let mut lazy_inits: Vec<Vec<u64>> = vec![Vec::new(); 2];
+    let mut lazy_seen: Vec<Vec<(u64, u8)>> = vec![Vec::new(); 2];
+    let mut lazy_drops: Vec<Vec<(u64, usize)>> = vec![Vec::new(); 2];
+    for (i, e) in hist.iter().enumerate() {
+        if e.kind != HK::Note {
+            continue;
+        }
+        let code = e.res.unwrap_or(0) % 16;
+        let stamp = e.res.unwrap_or(0) / 16;
+        let k = e.pc as usize;
+        match code {
+            NOTE_TLS_INIT => {
+                let t = e.tid as usize;
+                tls_init[t][k] += 1;
+                if tls_init[t][k] > 1 {
+                    return Err(format!("thread-local k{} was initialised twice on T{}", k, t));
+                }
+            }
+            NOTE_TLS_DROP => {
+                let t = e.tid as usize;
+                tls_drop[t][k] += 1;
+                if tls_drop[t][k] > tls_init[t][k] {
+                    return Err(format!("thread-local k{} of T{} was dropped more often than initialised", k, t));
+                }
+                // dropped when the thread finishes: after its last op
+                let total = p.threads[t].len();
+                let done = hist[..i].iter().filter(|x| x.kind == HK::Ret && x.tid as usize == t).count();
+                if done < total {
+                    return Err(format!("thread-local k{} of T{} was dropped before the thread finished ({} of {} ops done)", k, t, done, total));
+                }
+            }
+            NOTE_TLS_DROP_SAW_OTHER_ALIVE => {
+                return Err(format!("T{}: while thread-local k{} was being destroyed, try_with on the thread's other (initialised) thread-local did not report AccessError", e.tid, k));
+            }
+            NOTE_LAZY_INIT => lazy_inits[k].push(stamp),
+            NOTE_LAZY_SEEN => lazy_seen[k].push((stamp, e.tid)),
+            NOTE_LAZY_DROP => lazy_drops[k].push((stamp, i)),
+            _ => {}
+        }
+    }
+    for t in 0..nt {
+        for k in 0..2 {
+            if tls_drop[t][k] != tls_init[t][k] {
+                return Err(format!("thread-local k{} of T{} was initialised {} times but dropped {} times by the end of the iteration", k, t, tls_init[t][k], tls_drop[t][k]));
+            }
+            // initialised iff the thread accessed it
+            let accessed = p.threads[t].iter().enumerate().any(|(pc, op)| {
+                let done = hist.iter().any(|x| x.kind == HK::Ret && x.tid as usize == t && x.pc as usize == pc);
+                done && match op {
+                    Op::TlsWith { k: kk } => *kk as usize == k,
+                    Op::TlsNested { k: a, j: b } => *a as usize == k || *b as usize == k,
+                    _ => false,
+                }
+            });
+            if accessed != (tls_init[t][k] == 1) {
+                return Err(format!("thread-local k{} of T{}: accessed = {}, initialised = {}", k, t, accessed, tls_init[t][k]));
+            }
+        }
+    }
+    for k in 0..2 {
+        if lazy_seen[k].is_empty() {
+            continue;
+        }
+        let s0 = lazy_seen[k][0].0;
+        if let Some((s, t)) = lazy_seen[k].iter().find(|(s, _)| *s != s0) {
+            return Err(format!("lazy static z{}: T{} saw instance #{} while another access saw instance #{}", k, t, s, s0));
+        }
+        if !lazy_inits[k].contains(&s0) {
+            return Err(format!("lazy static z{}: the instance seen (#{}) was not created in this iteration", k, s0));
+        }
+        let n_drop = lazy_drops[k].iter().filter(|(s, _)| *s == s0).count();
+        if n_drop != 1 {
+            return Err(format!("lazy static z{}: the installed instance was dropped {} times by the end of the iteration", k, n_drop));
+        }
+        // dropped at the end of the iteration: after every access
+        let (_, di) = lazy_drops[k].iter().find(|(s, _)| *s == s0).unwrap();
+        let last_seen = hist.iter().rposition(|x| x.kind == HK::Note && x.pc as usize == k && x.res.unwrap_or(0) % 16 == NOTE_LAZY_SEEN).unwrap();
+        if *di < last_seen {
+            return Err(format!("lazy static z{}: dropped before its last access", k));
+        }
+    }
+    let _ = last_ret;
     Ok(())
 }
